@@ -34,7 +34,7 @@ func normalize(c *lcase) {
 		if s.Format == "" {
 			s.Format = MtJWS
 		}
-		if s.NonStr {
+		if s.NonStr || s.NonStrNonCrit {
 			s.Format = MtCOSE // integer labels exist in COSE only
 		}
 		if !s.Crit {
@@ -49,6 +49,9 @@ func normalize(c *lcase) {
 		if d.Level == "skip" {
 			d.Ov = nil
 			d.Global = false // a global skip statement is refused by Validate (C09)
+		}
+		if d.Kind != 1 {
+			d.NoneKind = 0
 		}
 	}
 	if c.Entry == "NVerify" {
@@ -106,7 +109,10 @@ func normalize(c *lcase) {
 	if c.PM.Kind != 2 {
 		c.PM = pmCfg{Kind: c.PM.Kind}
 	} else if c.PM.Meta != 2 {
-		c.PM.VerValid, c.PM.Caps = false, nil
+		c.PM.VerValid, c.PM.Caps, c.PM.VerKind = false, nil, 0
+	}
+	if c.Entry == "NVerify" && c.OCI.NoneKind >= 2 && c.Impl.Kind != 1 {
+		c.OCI.NoneKind = 0 // a custom verifier does not look at the reference; notation.Verify must be able to parse it
 	}
 }
 
@@ -120,6 +126,13 @@ var deviations = []func(s *scCfg){
 	func(s *scCfg) { s.PAttr = 1; s.PInvKind = 0 },
 	func(s *scCfg) { s.PAttr = 1; s.PInvKind = 1 },
 	func(s *scCfg) { s.PAttr = 1; s.PInvKind = 2 },
+	func(s *scCfg) { s.PAttr = 1; s.PInvKind = 3 },
+	func(s *scCfg) { s.NonCritAttr = true },
+	func(s *scCfg) { s.NonStrNonCrit = true },
+	func(s *scCfg) { s.PAttr = 2; s.NonCritAttr = true },
+	func(s *scCfg) { s.PAttr = 2; s.NonStrNonCrit = true },
+	func(s *scCfg) { s.PAttr = 2; s.NonStrNonCrit = true; s.Crit = true; s.AttrOrder = 1 },
+	func(s *scCfg) { s.PAttr = 2; s.NonCritAttr = true; s.Crit = true; s.AllProc = false },
 	func(s *scCfg) { s.PAttr = 2 },
 	func(s *scCfg) { s.PAttr = 2; s.Minver = 1 },
 	func(s *scCfg) { s.PAttr = 2; s.Minver = 2 },
@@ -184,6 +197,9 @@ func randSc(r *Rng) scCfg {
 		}
 	}
 	s.NonStr = r.Chance(1, 12)
+	s.NonCritAttr = r.Chance(1, 4)
+	s.NonStrNonCrit = r.Chance(1, 6)
+	s.AttrOrder = Pick(r, []int{0, 0, 1, 2})
 	// 0..3 native deviations
 	for k := r.Intn(4); k > 0; k-- {
 		switch r.Intn(9) {
@@ -565,6 +581,48 @@ func genLattice(a *Args, r *Rng, emit func(c *lcase), history func(base lcase, s
 		}
 	}
 
+	// ---- attrs: optional / integer-labelled attributes at every position of the attribute list ----
+	for order := 0; order < 3; order++ {
+		for mask := 1; mask < 16; mask++ {
+			for _, pa := range []int{0, 2} {
+				for li, l := range []levelSpec{strict, {"audit", nil}, customLevels[0]} {
+					if !thorough && (order+mask+pa+li)%2 == 1 {
+						continue
+					}
+					s0 := okSc()
+					s0.PAttr, s0.AttrOrder = pa, order
+					s0.NonCritAttr, s0.NonStrNonCrit, s0.Crit, s0.NonStr = mask&1 != 0, mask&2 != 0, mask&4 != 0, mask&8 != 0
+					s0.AllProc = (mask+li)%3 != 0
+					if pa == 2 && mask&1 != 0 {
+						s0.Minver = 1
+					}
+					put(lcase{Fam: "attrs", Entry: []string{"Verify", "VerifyBlob", "NVerifyBlob"}[(order+mask)%3], OCI: doc(2, l), Blob: doc(2, l), PM: pmOK("TI", "Rev"), Impl: implCfg{Kind: 1}, Sc: s0})
+				}
+			}
+		}
+	}
+	// ---- syntax: rarely used spellings of "no applicable statement", plugin versions with build metadata ----
+	for nk := 0; nk <= 5; nk++ {
+		for _, entry := range allEntries {
+			for _, l := range []levelSpec{strict, {"skip", nil}} {
+				c := lcase{Fam: "syntax", Entry: entry, OCI: docCfg{Kind: 1, Level: l.Level, NoneKind: nk}, Blob: docCfg{Kind: 1, Level: l.Level, NoneKind: nk % 3, Global: nk%2 == 0}, PM: pmOK("TI"), Impl: implCfg{Kind: 1}, Sc: okSc()}
+				if entry == "NVerify" {
+					c.N = nreqCfg{Max: 1, Ref: 2, Items: []scCfg{okSc()}}
+				}
+				put(c)
+			}
+		}
+	}
+	for vk := 0; vk < 3; vk++ {
+		for _, valid := range []bool{true, false} {
+			for mv := 0; mv <= 3; mv++ {
+				s0 := okSc()
+				s0.PAttr, s0.Minver, s0.Crit = 2, mv, vk == 1
+				put(lcase{Fam: "syntax", Entry: Pick(r, []string{"Verify", "VerifyBlob"}), OCI: doc(2, strict), Blob: doc(2, strict), PM: pmCfg{Kind: 2, Meta: 2, VerValid: valid, VerKind: vk, Caps: []string{"Rev", "TI"}}, Impl: implCfg{Kind: 1}, Sc: s0})
+			}
+		}
+	}
+
 	// ---- history: ONE verifier instance, several calls whose verdicts differ ----
 	on := func(entry string, mod func(s *scCfg)) func(c *lcase) {
 		return func(c *lcase) {
@@ -583,14 +641,39 @@ func genLattice(a *Args, r *Rng, emit func(c *lcase), history func(base lcase, s
 	mism := func(s *scCfg) { s.DescMatch = false }
 	noPayload := func(s *scCfg) { s.Payload = 0 }
 	wantPlugin := func(s *scCfg) { s.PAttr, s.Crit = 2, true }
-	metaOK := func(s *scCfg) { s.MetaReq, s.Payload = true, 2 }
-	metaBad := func(s *scCfg) { s.MetaReq, s.Payload = true, 3 }
+	umOK := func(s *scCfg) { s.MetaReq, s.Payload = true, 2 }
+	umBad := func(s *scCfg) { s.MetaReq, s.Payload = true, 3 }
+	metaErr := func(c *lcase) { c.Entry = "Verify"; c.Sc.PAttr = 2; c.PM = pmCfg{Kind: 2, Meta: 0} }
+	metaOK := func(c *lcase) { c.Entry = "Verify"; c.Sc.PAttr = 2; c.Sc.Crit = true; c.PM = pmOK("TI", "Rev") }
+	notInstalled := func(c *lcase) { c.Entry = "VerifyBlob"; c.Sc.PAttr = 2; c.PM = pmCfg{Kind: 1} }
+	respErr := func(c *lcase) { c.Entry = "Verify"; c.Sc.PAttr = 2; c.Sc.Resp = 0; c.PM = pmOK("TI") }
+	tiFail := func(c *lcase) { c.Entry = "VerifyBlob"; c.Sc.PAttr = 2; c.Sc.TI = 2; c.PM = pmOK("TI", "Rev") }
+	untrusted := func(c *lcase) { c.Entry = "Verify"; c.Sc.Auth = 2 }
+	storeErr := func(c *lcase) { c.Entry = "VerifyBlob"; c.Sc.Auth = 1 }
+	revoked := func(c *lcase) { c.Entry = "Verify"; c.Sc.Rev = 1 }
+	revErr := func(c *lcase) { c.Entry = "NVerifyBlob"; c.Sc.Rev = 2 }
+	otherRepo := func(c *lcase) { c.Entry = "Verify"; c.OCI.Kind, c.OCI.NoneKind = 1, 1 }
+	otherRepoSkip := func(c *lcase) { c.Entry = "SkipVerify"; c.OCI.Kind, c.OCI.NoneKind = 1, 4 }
+	otherName := func(c *lcase) { c.Entry = "VerifyBlob"; c.Blob.Kind, c.Blob.NoneKind = 1, 1 }
+	plain := func(entry string) func(c *lcase) {
+		return func(c *lcase) {
+			c.Entry = entry
+			if entry == "NVerify" {
+				c.N = nreqCfg{Max: 2, Ref: 2, Items: []scCfg{c.Sc}}
+			}
+		}
+	}
 	scripts := [][]func(c *lcase){
+		{metaErr, metaOK, metaErr, plain("Verify"), metaOK},
+		{notInstalled, metaOK, respErr, metaOK, tiFail, metaOK},
+		{plain("Verify"), untrusted, plain("Verify"), storeErr, plain("VerifyBlob"), revoked, plain("Verify"), revErr, plain("NVerifyBlob")},
+		{plain("SkipVerify"), otherRepoSkip, plain("SkipVerify"), otherRepo, plain("Verify"), otherName, plain("VerifyBlob"), plain("NVerify")},
+		{otherRepo, plain("NVerify"), otherName, plain("NVerifyBlob"), otherRepoSkip, plain("SkipVerify")},
 		{on("Verify", good), on("Verify", badSig), on("Verify", good), on("Verify", mism), on("Verify", good)},
 		{on("Verify", badSig), on("Verify", good), on("VerifyBlob", good), on("VerifyBlob", expired), on("VerifyBlob", good)},
 		{on("SkipVerify", good), on("Verify", good), on("NVerify", good), on("NVerifyBlob", good), on("Verify", noPayload), on("Verify", good)},
 		{on("Verify", wantPlugin), on("Verify", good), on("Verify", wantPlugin), on("VerifyBlob", wantPlugin), on("NVerify", wantPlugin)},
-		{on("Verify", metaOK), on("Verify", metaBad), on("Verify", good), on("NVerifyBlob", metaBad), on("NVerifyBlob", metaOK)},
+		{on("Verify", umOK), on("Verify", umBad), on("Verify", good), on("NVerifyBlob", umBad), on("NVerifyBlob", umOK)},
 		{on("NVerify", good), on("NVerify", expired), on("NVerify", good), on("SkipVerify", good)},
 		{on("VerifyBlob", mism), on("VerifyBlob", good), on("NVerifyBlob", mism), on("NVerifyBlob", good)},
 	}
@@ -617,7 +700,9 @@ func genLattice(a *Args, r *Rng, emit func(c *lcase), history func(base lcase, s
 	if thorough {
 		nHist = 1500
 	}
-	envMods := []func(s *scCfg){good, badSig, expired, mism, noPayload, wantPlugin, metaOK, metaBad,
+	envMods := []func(s *scCfg){good, badSig, expired, mism, noPayload, wantPlugin, umOK, umBad,
+		func(s *scCfg) { s.Auth = 2 }, func(s *scCfg) { s.Rev = 1 }, func(s *scCfg) { s.PAttr, s.TI = 2, 2 }, func(s *scCfg) { s.PAttr, s.Resp = 2, 0 },
+		func(s *scCfg) { s.PAttr, s.NonStrNonCrit = 2, true }, func(s *scCfg) { s.PAttr, s.Crit, s.AllProc = 2, true, false },
 		func(s *scCfg) { s.Format = MtCOSE }, func(s *scCfg) { s.Sig = 0 }, func(s *scCfg) { s.PAttr = 1 }, func(s *scCfg) { s.Crit = true }, func(s *scCfg) { s.DescGen = true }}
 	for k := 0; k < nHist; k++ {
 		b := okSc()
@@ -633,7 +718,17 @@ func genLattice(a *Args, r *Rng, emit func(c *lcase), history func(base lcase, s
 		}
 		var steps []func(c *lcase)
 		for j := 2 + r.Intn(3); j > 0; j-- {
-			steps = append(steps, on(Pick(r, allEntries), Pick(r, envMods)))
+			st := on(Pick(r, allEntries), Pick(r, envMods))
+			if base.PM.Kind != 0 && r.Chance(1, 3) {
+				pm := Pick(r, pmStates[1:])
+				inner := st
+				st = func(c *lcase) { inner(c); c.PM = pm }
+			}
+			if r.Chance(1, 6) {
+				inner := st
+				st = func(c *lcase) { inner(c); c.OCI.Kind, c.OCI.NoneKind, c.Blob.Kind, c.Blob.NoneKind = 1, 1, 1, 1 }
+			}
+			steps = append(steps, st)
 		}
 		history(base, steps)
 	}
